@@ -224,5 +224,13 @@ fn get_activity_time(activity: &FormatActivity, stop_schedule: &FormatSchedule) 
 }
 
 fn get_route_start_time(tour: &FormatTour) -> Result<Timestamp, GenericError> {
-    tour.stops.first().map(|stop| parse_time(&stop.schedule().departure)).ok_or_else(|| "empty route".into())
+    // NOTE: the first stop can serve more than the departure: then the vehicle leaves when its departure activity ends
+    tour.stops
+        .first()
+        .map(|stop| {
+            let departure = stop.activities().first().filter(|activity| activity.activity_type == "departure");
+            let departure = departure.and_then(|activity| activity.time.as_ref()).map(|time| &time.end);
+            parse_time(departure.unwrap_or(&stop.schedule().departure))
+        })
+        .ok_or_else(|| "empty route".into())
 }
